@@ -832,3 +832,174 @@ func VH_C05_Control() {
 		vreach("c05-control-ok")
 	}
 }
+
+// ---- whole executions: the node's VerifyScript / EvalScript loop over the step references ----
+
+// refNextOp reads one instruction; ok=false on a truncated push.
+func refNextOp(s []byte, i int) (op byte, data []byte, next int, ok bool) {
+	op = s[i]
+	hdr, n := 1, 0
+	switch {
+	case op >= 1 && op <= 75:
+		n = int(op)
+	case op == bscript.OpPUSHDATA1:
+		if i+2 > len(s) {
+			return op, nil, 0, false
+		}
+		hdr, n = 2, int(s[i+1])
+	case op == bscript.OpPUSHDATA2:
+		if i+3 > len(s) {
+			return op, nil, 0, false
+		}
+		hdr, n = 3, int(s[i+1])|int(s[i+2])<<8
+	case op == bscript.OpPUSHDATA4:
+		if i+5 > len(s) {
+			return op, nil, 0, false
+		}
+		hdr, n = 5, int(s[i+1])|int(s[i+2])<<8|int(s[i+3])<<16|int(s[i+4])<<24
+	}
+	if n > len(s)-i-hdr {
+		return op, nil, 0, false
+	}
+	return op, s[i+hdr : i+hdr+n], i + hdr + n, true
+}
+
+// refEvalScript: EvalScript of the node for one script on the shared data stack.
+func refEvalScript(s []byte, after bool, flags scriptflag.Flag, st *refStacks) int {
+	ctl := &refCtl{}
+	maxOps := 500
+	if after {
+		maxOps = 0x7fffffff
+	}
+	numOps := 0
+	for i := 0; i < len(s); {
+		op, data, next, ok := refNextOp(s, i)
+		if !ok {
+			return refErr
+		}
+		r := refControl(op, data, after, flags, ctl, st, numOps, maxOps)
+		if op > bscript.Op16 {
+			numOps++
+		}
+		if r == refErr {
+			return refErr
+		}
+		if r == refEarlyOK {
+			return refOK // post-Genesis top-level OP_RETURN ends this script successfully
+		}
+		i = next
+	}
+	if len(ctl.exec) != 0 {
+		return refErr // unbalanced conditional
+	}
+	return refOK
+}
+
+// refScriptOK: every instruction is one the step references cover and the script is not the P2SH template.
+func refScriptOK(s []byte) bool {
+	for i := 0; i < len(s); {
+		op, _, next, ok := refNextOp(s, i)
+		if !ok {
+			return true // truncated: an error in both worlds wherever it is found
+		}
+		if !vrefHandled(op) && !(op >= bscript.OpIF && op <= bscript.OpENDIF) {
+			return false
+		}
+		i = next
+	}
+	return true
+}
+
+func refPushOnly(s []byte) bool {
+	for i := 0; i < len(s); {
+		op, _, next, ok := refNextOp(s, i)
+		if !ok || op > bscript.Op16 {
+			return false
+		}
+		i = next
+	}
+	return true
+}
+
+// refVerifyScript: VerifyScript of the node without the P2SH evaluation (scripts here are shorter
+// than the P2SH template).
+func refVerifyScript(us, ls []byte, flags scriptflag.Flag) int {
+	after := flags&scriptflag.UTXOAfterGenesis != 0
+	if flags&scriptflag.VerifySigPushOnly != 0 && !refPushOnly(us) {
+		return refErr
+	}
+	st := &refStacks{}
+	if refEvalScript(us, after, flags, st) != refOK {
+		return refErr
+	}
+	st.a = nil // the alt stack does not survive a script
+	if refEvalScript(ls, after, flags, st) != refOK {
+		return refErr
+	}
+	if len(st.d) == 0 || !refIsTrue(st.d[len(st.d)-1]) {
+		return refErr
+	}
+	if flags&scriptflag.VerifyCleanStack != 0 && len(st.d) != 1 {
+		return refErr
+	}
+	return refOK
+}
+
+var vC05FlagSets = []scriptflag.Flag{
+	0,
+	scriptflag.UTXOAfterGenesis,
+	scriptflag.Bip16 | scriptflag.VerifyCleanStack | scriptflag.VerifyMinimalData | scriptflag.VerifyMinimalIf | scriptflag.DiscourageUpgradableNops,
+	scriptflag.UTXOAfterGenesis | scriptflag.VerifyMinimalData | scriptflag.VerifySigPushOnly | scriptflag.VerifyMinimalIf,
+	scriptflag.VerifySigPushOnly | scriptflag.VerifyCleanStack | scriptflag.Bip16,
+	scriptflag.UTXOAfterGenesis | scriptflag.VerifyCleanStack | scriptflag.Bip16,
+}
+
+// C05-S4: whole executions through Engine.Execute on short script pairs: the verdict equals the
+// node's VerifyScript built from the step references (script switching, alt-stack clearing,
+// balanced conditionals per script, push-only unlocking scripts, final truth and clean-stack tests).
+func VH_C05_Execute() {
+	vunwindCut(vparam("U", 8))
+	var usb []byte
+	switch vnondetLen("us-kind", 0, 8) {
+	case 1:
+		usb = []byte{bscript.Op1}
+	case 2:
+		usb = []byte{bscript.Op0}
+	case 3:
+		usb = append([]byte{2}, vnondetBytes("us-data", 2, 2)...)
+	case 4:
+		usb = []byte{bscript.Op1, bscript.Op1}
+	case 5:
+		usb = []byte{bscript.Op1, bscript.OpTOALTSTACK}
+	case 6:
+		usb = []byte{bscript.OpNOP}
+	case 7:
+		usb = []byte{bscript.Op1, bscript.OpIF}
+	case 8:
+		usb = []byte{bscript.Op1, bscript.OpRETURN}
+	}
+	// locking script: optional concrete head, L symbolic bytes, optional concrete tail
+	var lsb []byte
+	if vparam("HEAD", 0) == 1 {
+		lsb = append(lsb, [][]byte{{}, {bscript.Op1}, {bscript.Op0, bscript.OpIF}, {bscript.Op1, bscript.OpIF}, {bscript.OpDUP}}[vnondetLen("ls-head", 0, 4)]...)
+	}
+	lsb = append(lsb, vnondetBytes("ls", 1, vparam("L", 1))...)
+	if vparam("TAIL", 0) == 1 {
+		lsb = append(lsb, [][]byte{{}, {bscript.Op1}, {bscript.OpDROP}, {bscript.OpENDIF}, {bscript.OpELSE, bscript.Op1, bscript.OpENDIF}, {bscript.OpVERIFY}, {bscript.OpRETURN}, {bscript.OpFROMALTSTACK}, {bscript.OpEQUAL}, {bscript.OpADD}}[vnondetLen("ls-tail", 0, 9)]...)
+	}
+	vassume(refScriptOK(lsb))
+	flags := vC05FlagSets[vnondetLen("flagset", 0, len(vC05FlagSets)-1)]
+	want := refVerifyScript(vcopy(usb), vcopy(lsb), flags)
+	us, ls := bscript.Script(usb), bscript.Script(lsb)
+	err := NewEngine().Execute(WithScripts(&ls, &us), WithFlags(flags))
+	got := refOK
+	if err != nil {
+		got = refErr
+	}
+	vassert(got == want, "C05: Execute verdict equals the reference VerifyScript")
+	if got == refOK {
+		vreach("c05-exec-accept")
+	} else {
+		vreach("c05-exec-reject")
+	}
+}
